@@ -155,4 +155,25 @@ TEXTS = {
           "targeting branch; agreement of module-level and image-level path filtering.",
   "technique": "CFG dominance/reachability shape rules + SSA value identity + lockset + three-valued evaluation of a decision table",
  },
+ "C08": {
+  "text": "Decides structural necessary conditions of digest purity and manifest canonicity: the bucket handed to storage.WalkReadObjects in the b4 and b5 digest paths is "
+          "FilterReadBucket(_, getStorageMatcher(…)) (SSA identity), so non-module files cannot enter; the dependency digest strings, which arrive in the caller's listing order, "
+          "are sorted before strings.Join feeds the hash; the hashed manifest comes from bufcas.NewManifest (sorted by path) and the b4 side files from a fixed literal list; the "
+          "digest functions reference no FullName/OpaqueID/CommitID/Description accessor; fileNode.String joins with the separator ParseFileNode splits on and the split is bounded "
+          "(the path is unconstrained text — this re-derived, and led to the repair of, paths containing two spaces); manifest.String and ParseManifest agree on the newline protocol; "
+          "digest-type name tables are mutually inverse and DigestType switches are total or error.",
+  "note": "Not decided: equality with the published SHAKE256 construction, sensitivity to every byte and path, equality across storage backends; these quantify over hash values.",
+  "technique": "SSA value identity + CFG sort-before-use + who-may-reference + writer/parser literal agreement",
+ },
+ "C10": {
+  "text": "Decides structural necessary conditions of dependency resolution: in getModuleDepsRec the cycle test on the parent stack is the first test and returns *ModuleCycleError, the "
+          "push dominates the recursion, the delete of the same key follows it and lies on every path to a nil return; the top-level call passes isDirect=true, the recursive call "
+          "false, and a recorded dependency is never overwritten; every construction of ModuleCycleError/DuplicateProtoPathError/ImportNotExistError/NoProtoFilesError is returned; "
+          "getModuleForFilePathUncached maps zero owners to not-exist, two or more to the duplicate error and returns other stat errors at once; the only `continue` on an error "
+          "edge is under ErrNotExist && datawkt.Exists; duplicates of a module are reduced by the chain IsTarget → IsLocal → remote, each stage filtering by that method value "
+          "and falling through only to the next, with a single caller; the ls-files closure marks before recursing, starts from non-import files and sorts; R-ERRUSE on bufmodule, "
+          "bufworkspace, buftarget and dag.",
+  "note": "Not decided: exactness of the dependency set for arbitrary import graphs, local-over-remote precedence values, and that ls-files lists exactly the files build puts in the image.",
+  "technique": "CFG push/pop pairing + constant-argument and check-then-insert shape rules + static call-chain + SSA error-use",
+ },
 }
